@@ -502,32 +502,43 @@ def _time(repo, col, R="R-C08-time"):
     a = repo.func("jaxley/stimulus.py", "step_current")
     b = repo.func("jaxley/stimulus.py", "datapoint_to_step_currents")
 
-    def defs(fi_):
-        d = {}
-        for n in walk_no_nested(fi_.node):
-            if isinstance(n, ast.Assign) and isinstance(n.targets[0], ast.Name):
-                d[n.targets[0].id] = unparse(n.value)
-        return d
-
-    da, db = defs(a), defs(b)
-    for k in ("window_start", "window_end", "time_steps"):
-        col.check(da.get(k) is not None and da.get(k) == db.get(k), R, b, f"step-current builders agree on {k}",
-                  da.get(k, ""), f"step_current computes {k} = `{da.get(k)}`, datapoint_to_step_currents `{db.get(k)}`",
-                  node=b.node)
-    for fi_ in (a, b):
+    def parts(fi_):
+        """(window lower, window upper, number of time steps, scatter method) of the returned current, as terms"""
         exs = idx.expander(repo, fi_)
-        r = exs.returns[0] if exs.returns else None
-        sets = [x for x in (r.walk() if r else []) if x.op == "mcall" and x.name in ("set", "add")]
-        ok = bool(sets) and sets[0].name == "set"
-        sl_ = None
-        for n in ast.walk(fi_.node):
-            if isinstance(n, ast.Subscript) and isinstance(n.value, ast.Attribute) and n.value.attr == "at":
-                sl_ = n.slice.elts[0] if isinstance(n.slice, ast.Tuple) else n.slice
-        okw = isinstance(sl_, ast.Slice) and sl_.lower is not None and sl_.upper is not None and \
-            unparse(sl_.lower) == "window_start" and unparse(sl_.upper) == "window_end"
-        col.check(ok and okw, R, fi_, f"{fi_.name}: amplitude set on [window_start, window_end)",
-                  "half-open window, background i_offset",
-                  f"{fi_.name} does not set the amplitude on [window_start:window_end]", node=fi_.node)
+        r = exs.merged_return()
+        if r is None:
+            return None
+        st = T.find(r, lambda x: x.op == "mcall" and x.name in ("set", "add") and x.args[0].op == "sub" and
+                    x.args[0].args[0].op == "attr" and x.args[0].args[0].name == "at")
+        if st is None:
+            return None
+        ix = st.args[0].args[1]
+        sl_ = ix.args[0] if ix.op == "tuple" and ix.args else ix
+        if sl_.op != "slice":
+            return None
+        zs = T.find(st.args[0].args[0], lambda x: x.op == "mcall" and x.name == "zeros")
+        n_t = None
+        if zs is not None and len(zs.args) > 1:
+            shp = zs.args[1]
+            n_t = shp.args[0] if shp.op == "tuple" and shp.args else shp
+        return sl_.args[0], sl_.args[1], n_t, st.name, sl_.args[2]
+
+    pa, pb = parts(a), parts(b)
+    if pa is None or pb is None:
+        col.unk(R, b, "step-current builders", "returned current is not zeros(...).at[start:end].set(amplitude)", node=b.node)
+    else:
+        for k, i_ in (("window_start", 0), ("window_end", 1), ("time_steps", 2)):
+            same = pa[i_] is not None and pb[i_] is not None and pa[i_].key() == pb[i_].key()
+            col.check(same, R, b, f"step-current builders agree on {k}", pa[i_].short(60) if pa[i_] is not None else "",
+                      f"step_current computes {k} = `{pa[i_].short(60) if pa[i_] is not None else None}`, datapoint_to_step_currents "
+                      f"`{pb[i_].short(60) if pb[i_] is not None else None}`", node=b.node)
+        for fi_, p_ in ((a, pa), (b, pb)):
+            lo, hi, _n, meth, step_ = p_
+            okw = not (lo.op == "const" and lo.name is None) and not (hi.op == "const" and hi.name is None) and \
+                (step_.op == "const" and step_.name is None) and lo.key() != hi.key()
+            col.check(meth == "set" and okw, R, fi_, f"{fi_.name}: amplitude set on [window_start, window_end)",
+                      "half-open window, background i_offset",
+                      f"{fi_.name} does not set the amplitude on [window_start:window_end] (method {meth}, window {lo.short(30)}:{hi.short(30)})", node=fi_.node)
 
 
 def scan_body(repo, fi, ex):
